@@ -591,12 +591,13 @@ Notation pexps := (Fmt0.pexps cf).
 (* the first character of a statement *)
 Lemma first_pstmt s d n : wfs s -> exists ch, nextc (pstmt c d s) n = Some ch /\ nb ch = true.
 Proof.
-  destruct s; intros W; try (eexists; split; [reflexivity|reflexivity]).
+  destruct s; intros W; try (eexists; split; [reflexivity|reflexivity]);
+    try (rewrite Fmt0Proof.p_if; match goal with |- context [if_guard ?a ?b ?c] => destruct (if_guard a b c) end; eexists; split; reflexivity).
   - destruct es; eexists; split; reflexivity.
-  - cbn [pstmt]. destruct W as (N & _ & W & _). destruct vs as [|x vs]; [contradiction|]. inversion W as [|? ? [Wx _] _]; subst.
+  - cbn [pstmt psimple]. destruct W as (N & _ & W & _). destruct vs as [|x vs]; [contradiction|]. inversion W as [|? ? [Wx _] _]; subst.
     destruct (first_pexps x vs None Wx) as (ch & E & B). exists ch. split; [|exact B].
     rewrite nextc_app_ne; [exact E|]. intros Q. rewrite Q in E. discriminate.
-  - cbn [pstmt]. destruct W as [W _]. exists (fc e). split; [apply nextc_pexp; exact W|apply fc_nb; exact W].
+  - cbn [pstmt psimple]. destruct W as [W _]. exists (fc e). split; [apply nextc_pexp; exact W|apply fc_nb; exact W].
   - destruct es; eexists; split; reflexivity.
 Qed.
 
@@ -634,11 +635,47 @@ Proof.
   induction 1 as [|i r Hi Hr IH]; intros W d n; [apply gs_nil|]. destruct W as [W1 W2]. cbn [map List.concat].
   apply gs_app; [apply Hi; exact W1|apply IH; exact W2].
 Qed.
+(* the statements without a block inside, as the collapsed forms print them *)
+Lemma gs_psimple s n : wfs s -> simple_stmt s = true -> eolish n = true -> gs (psimple c s) n.
+Proof.
+  intros H S H0. destruct s; try discriminate; cbn [wfs] in H.
+  - (* local *) destruct H as (N & Wn & We). destruct ns as [|x ns']; [contradiction|]. inversion Wn as [|? ? Wx _]; subst.
+    destruct es as [|e es']; cbn [psimple]; idtac.
+    + word. apply gs_sp; [destruct (first_pnames x ns' n Wx) as (ch & E & B); exists ch; split; assumption|]. apply gs_pnames; [exact Wn|apply eolish_clo; exact H0].
+    + inversion We as [|? ? [Wee _] _]; subst. word. apply gs_sp; [destruct (first_pnames x ns' None Wx) as (ch & E & B); exists ch; split; [|exact B]; rewrite nextc_app_ne; [exact E|intros Q; rewrite Q in E; discriminate]|].
+      apply gs_app; [apply gs_pnames; [exact Wn|reflexivity]|]. spc. apply gs_sym; [wfkw|reflexivity|]. apply gs_sp; [apply (first_pexps e es' n Wee)|]. apply gs_pexps; [exact We|apply eolish_clo; exact H0].
+  - (* assignment *) destruct H as (N1 & N2 & Wv & We). cbn [psimple]. destruct es as [|e es']; [contradiction|]. inversion We as [|? ? [Wee _] _]; subst.
+    apply gs_app; [apply gs_pexps; [exact Wv|reflexivity]|]. spc. apply gs_sym; [wfkw|reflexivity|]. apply gs_sp; [apply (first_pexps e es' n Wee)|]. apply gs_pexps; [exact We|apply eolish_clo; exact H0].
+  - (* call *) destruct H as [W _]. cbn [psimple]. apply gs_pexp; [exact W|apply okn_of_clo; apply eolish_clo; exact H0].
+  - (* return *) destruct es as [|e es']; cbn [psimple]; idtac.
+    + apply gs_word; [wfkw|reflexivity|apply eolish_word; exact H0|apply gs_nil].
+    + inversion H as [|? ? [Wee _] _]; subst. word. apply gs_sp; [apply (first_pexps e es' n Wee)|]. apply gs_pexps; [exact H|apply eolish_clo; exact H0].
+  - (* break *) cbn [psimple]. apply gs_word; [wfkw|reflexivity|apply eolish_word; exact H0|apply gs_nil].
+Qed.
+Lemma pstmt_simple s d : simple_stmt s = true -> pstmt c d s = psimple c s.
+Proof. destruct s; try discriminate; reflexivity. Qed.
+Lemma simple_blk_wfs b s1 : simple_blk b = Some s1 -> wfb b -> wfs s1 /\ simple_stmt s1 = true.
+Proof.
+  destruct b as [is tl]. destruct is as [|[l bl s t] [|i2 r]]; try discriminate; cbn [simple_blk].
+  - destruct l; [|discriminate]. destruct t; [discriminate|]. destruct tl; [|discriminate]. destruct (simple_stmt s) eqn:S; [|discriminate].
+    intros E W. injection E as <-. rewrite wfb_eq in W. destruct W as [[(_ & W & _) _] _]. split; [exact W|exact S].
+  - destruct l; [|discriminate]. destruct t; discriminate.
+Qed.
+(* ` <statement> end` behind `then` or a function header *)
+Lemma gs_collapsed s1 n : wfs s1 -> simple_stmt s1 = true -> eolish n = true -> gs (sp :: psimple c s1 ++ [sp; kw "end"]) n.
+Proof.
+  intros W S E. apply gs_sp.
+  - destruct (first_pstmt s1 0 None W) as (ch & E1 & B). rewrite (pstmt_simple s1 0 S) in E1. exists ch. split; [|exact B].
+    rewrite nextc_app_ne; [exact E1|intros Q; rewrite Q in E1; discriminate].
+  - apply gs_app; [apply gs_psimple; [exact W|exact S|reflexivity]|]. spc. apply gs_word; [wfkw|reflexivity|apply eolish_word; exact E|apply gs_nil].
+Qed.
 Lemma gs_fbody b d n : Bs b -> wfb b -> eolish n = true -> gs (Fmt0Proof.fbody c d b) n.
 Proof.
   intros H W E. unfold Fmt0Proof.fbody. destruct (blk_empty b).
   - spc. apply gs_word; [wfkw|reflexivity|apply eolish_word; exact E|apply gs_nil].
-  - apply gs_eol. apply gs_block_end; assumption.
+  - destruct (fun_guard c b) as [s1|] eqn:G.
+    + unfold fun_guard in G. destruct (collapse_fun (collapse0 c)); [|discriminate]. destruct (simple_blk_wfs b s1 G W) as [W1 S1]. apply gs_collapsed; assumption.
+    + apply gs_eol. apply gs_block_end; assumption.
 Qed.
 Lemma nextc_pparams ps va r n : exists ch, nextc (pparams c ps va ++ r) n = Some ch /\ LexAdj.word_follow (Some ch) = true.
 Proof. unfold pparams. destruct (CallForm.space_definition (space0 c)); eexists; split; reflexivity. Qed.
@@ -676,22 +713,26 @@ Proof.
   assert (H : forall s, Ps s); [|split; [exact H|]].
   - apply (stmt_ind' Ps Qs Is Bs); unfold Ps, Qs, Bs; intros; try (apply Hitem; assumption); try (apply Hblk; assumption).
     + (* local *) destruct H as (N & Wn & We). destruct ns as [|x ns']; [contradiction|]. inversion Wn as [|? ? Wx _]; subst.
-      destruct es as [|e es']; cbn [pstmt]; idtac.
+      destruct es as [|e es']; cbn [pstmt psimple]; idtac.
       * word. apply gs_sp; [destruct (first_pnames x ns' n Wx) as (ch & E & B); exists ch; split; assumption|]. apply gs_pnames; [exact Wn|apply eolish_clo; exact H0].
       * inversion We as [|? ? [Wee _] _]; subst. word. apply gs_sp; [destruct (first_pnames x ns' None Wx) as (ch & E & B); exists ch; split; [|exact B]; rewrite nextc_app_ne; [exact E|intros Q; rewrite Q in E; discriminate]|].
         apply gs_app; [apply gs_pnames; [exact Wn|reflexivity]|]. spc. apply gs_sym; [wfkw|reflexivity|]. apply gs_sp; [apply (first_pexps e es' n Wee)|]. apply gs_pexps; [exact We|apply eolish_clo; exact H0].
-    + (* assignment *) destruct H as (N1 & N2 & Wv & We). cbn [pstmt]. destruct es as [|e es']; [contradiction|]. inversion We as [|? ? [Wee _] _]; subst.
+    + (* assignment *) destruct H as (N1 & N2 & Wv & We). cbn [pstmt psimple]. destruct es as [|e es']; [contradiction|]. inversion We as [|? ? [Wee _] _]; subst.
       apply gs_app; [apply gs_pexps; [exact Wv|reflexivity]|]. spc. apply gs_sym; [wfkw|reflexivity|]. apply gs_sp; [apply (first_pexps e es' n Wee)|]. apply gs_pexps; [exact We|apply eolish_clo; exact H0].
-    + (* call *) destruct H as [W _]. cbn [pstmt]. apply gs_pexp; [exact W|apply okn_of_clo; apply eolish_clo; exact H0].
+    + (* call *) destruct H as [W _]. cbn [pstmt psimple]. apply gs_pexp; [exact W|apply okn_of_clo; apply eolish_clo; exact H0].
     + (* do *) rewrite Fmt0Proof.p_do. word. apply gs_eol. apply gs_block_end; assumption.
     + (* while *) destruct H0 as [[We _] Wb]. rewrite Fmt0Proof.p_while. word. apply gs_sp; [apply first_cond; exact We|].
       apply gs_app; [apply gs_pexp; [exact We|apply okn_of_clo; reflexivity]|]. spc. word. apply gs_eol. apply gs_block_end; assumption.
     + (* repeat *) destruct H0 as [Wb [We _]]. rewrite Fmt0Proof.p_repeat. word. apply gs_eol. apply gs_app; [apply H; exact Wb|].
       apply gs_indent; [eexists; split; reflexivity|]. word. apply gs_sp; [exists (fc e); split; [apply nextc_pexp; exact We|apply fc_nb; exact We]|].
       apply gs_pexp; [exact We|apply okn_of_clo; apply eolish_clo; exact H1].
-    + (* if *) destruct H1 as ([We _] & Wt & Wr). rewrite Fmt0Proof.p_if. word. apply gs_sp; [apply first_cond; exact We|].
-      apply gs_app; [apply gs_pexp; [exact We|apply okn_of_clo; reflexivity]|]. spc. word. apply gs_eol. apply gs_app; [apply H; exact Wt|].
-      apply gs_app; [apply H0; exact Wr|]. apply gs_end. exact H2.
+    + (* if *) destruct H1 as ([We _] & Wt & Wr). rewrite Fmt0Proof.p_if. destruct (if_guard c t r) as [s1|] eqn:G.
+      * unfold if_guard in G. destruct (collapse_if (collapse0 c)); [|discriminate]. destruct r; try discriminate. destruct (simple_blk_wfs t s1 G Wt) as [W1 S1].
+        word. apply gs_sp; [apply first_cond; exact We|]. apply gs_app; [apply gs_pexp; [exact We|apply okn_of_clo; reflexivity]|]. spc. word.
+        apply gs_collapsed; assumption.
+      * word. apply gs_sp; [apply first_cond; exact We|].
+        apply gs_app; [apply gs_pexp; [exact We|apply okn_of_clo; reflexivity]|]. spc. word. apply gs_eol. apply gs_app; [apply H; exact Wt|].
+        apply gs_app; [apply H0; exact Wr|]. apply gs_end. exact H2.
     + (* numeric for *) destruct H0 as (Wx & [Wa _] & [Wb _] & Wst & Wbody). rewrite Fmt0Proof.p_numfor. word.
       apply gs_sp; [destruct (wf_name_hd _ Wx) as (cx & rx & Ex & Ix); rewrite Ex; eexists; split; [reflexivity|apply good_nb; apply start_good; exact Ix]|].
       apply gs_cons; [exact Wx|reflexivity|]. spc. apply gs_sym; [wfkw|reflexivity|]. apply gs_sp; [apply first_cond; exact Wa|].
@@ -720,10 +761,10 @@ Proof.
     + (* local function *) destruct H0 as (Wx & Wps & Wbody). rewrite Fmt0Proof.p_localfunction. word. spc. word.
       apply gs_sp; [destruct (wf_name_hd _ Wx) as (cx & rx & Ex & Ix); rewrite Ex; eexists; split; [reflexivity|apply good_nb; apply start_good; exact Ix]|].
       apply gs_cons; [exact Wx|destruct (nextc_pparams ps va (Fmt0Proof.fbody c d body) n0) as (ch & E1 & E2); rewrite E1; exact E2|]. apply gs_pparams; [exact Wps|apply gs_fbody; assumption].
-    + (* return *) destruct es as [|e es']; cbn [pstmt]; idtac.
+    + (* return *) destruct es as [|e es']; cbn [pstmt psimple]; idtac.
       * apply gs_word; [wfkw|reflexivity|apply eolish_word; exact H0|apply gs_nil].
       * inversion H as [|? ? [Wee _] _]; subst. word. apply gs_sp; [apply (first_pexps e es' n Wee)|]. apply gs_pexps; [exact H|apply eolish_clo; exact H0].
-    + (* break *) cbn [pstmt]. apply gs_word; [wfkw|reflexivity|apply eolish_word; exact H0|apply gs_nil].
+    + (* break *) cbn [pstmt psimple]. apply gs_word; [wfkw|reflexivity|apply eolish_word; exact H0|apply gs_nil].
     + (* no else *) apply gs_nil.
     + (* else *) rewrite Fmt0Proof.p_else. apply gs_indent; [eexists; split; reflexivity|]. word. apply gs_eol. apply H. exact H0.
     + (* elseif *) destruct H1 as ([We _] & Wt & Wr). rewrite Fmt0Proof.p_elseif. apply gs_indent; [eexists; split; reflexivity|]. word.
@@ -883,7 +924,7 @@ End Lexical.
 
 (* non-vacuity: a program with a comment, a guarded double minus, a call with a number and a string, a nested block *)
 Definition v51 : ver := {| v52 := false; v53 := false; v54 := false; vluau := false; vjit := false |}.
-Definition cfg_example : cfg0 := {| windows0 := false; spaces0 := false; width0 := 4; style0 := QuoteMore.AutoDouble; callp0 := CallForm.NoSingleTable; space0 := CallForm.SCalls |}.
+Definition cfg_example : cfg0 := {| windows0 := false; spaces0 := false; width0 := 4; style0 := QuoteMore.AutoDouble; callp0 := CallForm.NoSingleTable; space0 := CallForm.SCalls; collapse0 := CAlways |}.
 Definition prog_example : blk :=
   Blk [ Item [(false, str " a comment")] false
           (SLocal [str "x"] [EUn Neg (EParen (EUn Neg (ECall (EName (str "f")) false [ENum (str "12"); EStr (str "it's")])))]) (Some (str " trailing"));
